@@ -4,3 +4,5 @@
 import Bardolph.Driver.All
 import Bardolph.Audit.Tool
 import Bardolph.Props.C11
+import Bardolph.Props.C07
+import Bardolph.Props.C14
